@@ -347,6 +347,8 @@ class PyFront:
     # -- routine ------------------------------------------------------------
     def translate(self, fname, node=None, lean_name=None):
         node = node or self.functions()[fname]
+        from lint import lint
+        lint(node, Untranslatable, single_assignment_loops=True)
         b = Builder(fname)
         b.returned = None
         b.lenvars = {}
